@@ -255,6 +255,13 @@ func runBatch(b batch, scale int) *rp.Fail {
 				return nil
 			}
 			cfg.Devices = append(cfg.Devices, hook.DeviceCfg{Serial: serials[i], HasAddr: true, IP: ip, Port: e.Addr.Port(), Protocol: "udp"})
+		case 3: // a TCP controller that is switched off: connection refused, the call must fail - and nothing else may suffer
+			p, err := farm.FreePort(ip)
+			if err != nil {
+				ev.HarnessError("no free port: %v", err)
+				return nil
+			}
+			cfg.Devices = append(cfg.Devices, hook.DeviceCfg{Serial: serials[i], HasAddr: true, IP: ip, Port: p, Protocol: "tcp"})
 		case 2:
 			e, err := f.TCP(ip, 0, tcpHandler)
 			if err != nil {
@@ -293,8 +300,12 @@ func runBatch(b batch, scale int) *rp.Fail {
 				serial := serials[c.Ctrl%len(serials)]
 				started := time.Now()
 				err, crossed := invoke(clients[c.Client%len(clients)], c, serial)
-				path := []string{"broadcast", "udp", "tcp"}[b.Paths[c.Ctrl%len(serials)]]
+				path := []string{"broadcast", "udp", "tcp", "tcp-refused"}[b.Paths[c.Ctrl%len(serials)]]
 				switch {
+				case path == "tcp-refused":
+					if err == nil {
+						fail("success-without-controller", fmt.Sprintf("%s(controller %d) succeeded although nothing listens at its address", c.Op, serial))
+					}
 				case crossed != "":
 					fail("crossed-reply/"+path, crossed)
 				case err != nil:
@@ -384,7 +395,14 @@ func runBatch(b batch, scale int) *rp.Fail {
 			}
 		}()
 	}
-	wg.Wait()
+	// watchdog: every call is answered within its timeout, queued calls wait at most one timeout per call in front of them
+	finished := make(chan struct{})
+	go func() { wg.Wait(); close(finished) }()
+	select {
+	case <-finished:
+	case <-time.After(time.Duration(len(b.Calls)+4)*T + 10*time.Second):
+		return rp.Failf("hang", "the batch has not finished %v after it was started (%d calls, timeout %v each): a call never returned", time.Duration(len(b.Calls)+4)*T+10*time.Second, len(b.Calls), T)
+	}
 	if len(failures) > 0 {
 		return rp.Failf(failures[0].fp, "%s (%d failures in this batch)", failures[0].msg, len(failures))
 	}
@@ -475,7 +493,11 @@ func genBatch(t *rapid.T) batch {
 	}
 	nc := rapid.IntRange(1, 4).Draw(t, "controllers")
 	for i := 0; i < nc; i++ {
-		b.Paths = append(b.Paths, rapid.IntRange(0, 2).Draw(t, "path"))
+		p := rapid.IntRange(0, 2).Draw(t, "path")
+		if rapid.IntRange(0, 9).Draw(t, "refused") == 0 {
+			p = 3
+		}
+		b.Paths = append(b.Paths, p)
 	}
 	workers := rapid.IntRange(2, 24).Draw(t, "workers")
 	maxPct := 60
@@ -497,7 +519,7 @@ func genBatch(t *rapid.T) batch {
 			}
 			used[nonce] = true
 			ctrl := rapid.IntRange(0, nc-1).Draw(t, "ctrl")
-			if b.FixedPort && b.Paths[ctrl] == 2 {
+			if b.FixedPort && b.Paths[ctrl] >= 2 {
 				// a second TCP connection from the same fixed local port to the same controller hits the
 				// TIME_WAIT state of the first one (connect: cannot assign requested address) before the
 				// controller is even asked - an operating system limit outside the property's premise
